@@ -397,15 +397,25 @@ func spinning() []string {
 			if len(lines) < 2 || !(strings.Contains(lines[0], "[running") || strings.Contains(lines[0], "[runnable")) {
 				continue
 			}
+			// the outermost frame of the protocol layers tells most; otherwise the innermost frame of the proxy
+			pick := ""
 			for _, ln := range lines[1:] {
-				if strings.HasPrefix(ln, "mosn.io/mosn/pkg/") {
-					fn := ln
-					if i := strings.LastIndex(fn, "("); i > 0 {
-						fn = fn[:i]
-					}
-					seen[fn] = true
-					break
+				if !strings.HasPrefix(ln, "mosn.io/mosn/pkg/") {
+					continue
 				}
+				fn := ln
+				if i := strings.LastIndex(fn, "("); i > 0 {
+					fn = fn[:i]
+				}
+				if pick == "" {
+					pick = fn
+				}
+				if strings.Contains(fn, "/module/http2.") || strings.Contains(fn, "/protocol/") {
+					pick = fn
+				}
+			}
+			if pick != "" {
+				seen[pick] = true
 			}
 		}
 		for fn := range seen {
@@ -1033,7 +1043,13 @@ func runE2E(casesPath, tracePath string) {
 	// bytes that never arrived.  Who did it is found by sending the poisons again, one at a time.
 	batchAlloc := allocated() - batch0
 	tr.Emit(vh.Ev{"ev": "batchalloc", "bytes": clampBytes(batchAlloc), "poisons": len(menu)})
-	if batchAlloc > allocBatchBound {
+	idle0 := allocated()
+	time.Sleep(300 * time.Millisecond)
+	idleAlloc := allocated() - idle0
+	if batchAlloc > allocBatchBound && idleAlloc > 4<<20 {
+		// something keeps allocating with nothing to do (a spinning goroutine): sending the poisons again would blame all of them
+		tr.Emit(vh.Ev{"ev": "note", "what": fmt.Sprintf("allocation goes on while idle (%d MB in 300 ms): not attributed to single poisons", idleAlloc>>20)})
+	} else if batchAlloc > allocBatchBound {
 		for i, p := range menu {
 			if (p.Proto == "http2" && !h2ok) || p.Side == "up" || bodySize(p) != "" {
 				continue
